@@ -284,7 +284,11 @@ static void run_actor(int idx)
         wait_act(id);
     } else if (n == "wait")
       wait_act(std::stol(op.a[0]));
-    else if (n == "suspend")
+    else if ((n == "suspend" || n == "resume" || n == "setprio" || n == "setbound") &&
+             (acts.find(std::stol(op.a[0])) == acts.end() || acts[std::stol(op.a[0])].logged ||
+              acts[std::stol(op.a[0])].ptr->get_impl()->model_action_ == nullptr)) {
+      // the target has not started yet or is already over: nothing to act upon
+    } else if (n == "suspend")
       acts[std::stol(op.a[0])].ptr->suspend();
     else if (n == "resume")
       acts[std::stol(op.a[0])].ptr->resume();
